@@ -137,6 +137,16 @@ def multi_programs():
     add("groupby-then-where", lambda l, r, F: l.groupBy("s").agg(F.sum("b").alias("sb")).where(F.col("sb") > 2), "group")
     add("where-groupby-select", lambda l, r, F: l.where(F.col("a").isNotNull()).groupBy("a").agg(F.min("b").alias("mb")).select("mb", "a"), "group")
     add("global-agg", lambda l, r, F: l.agg(F.count("a").alias("n"), F.sum("b").alias("sb")), "group")
+    # a CTE that SURVIVES optimisation (aggregate / LIMIT / UNION / DISTINCT) joined back, i.e. referenced through
+    # qualified columns afterwards (all 8 configurations, in particular optimize=True x quote_identifiers=False)
+    add("agg-joined-back", lambda l, r, F: l.groupBy("a").agg(F.sum("b").alias("sb")).join(r, on="a"), "cte-joined")
+    add("agg-joined-back-on-expr",
+        lambda l, r, F: (lambda g: g.join(r, on=g["a"] == r["a"]).select(g["sb"], r["t"]))(l.groupBy("a").agg(F.sum("b").alias("sb"))),
+        "cte-joined")
+    add("limit-joined-back", lambda l, r, F: l.orderBy("a", "b", "s").limit(3).join(r, on="a", how="left"), "cte-joined")
+    add("union-joined-back", lambda l, r, F: l.select("a").union(r.select("a")).join(r, on="a"), "cte-joined")
+    add("distinct-joined-back", lambda l, r, F: l.select("a", "s").distinct().join(r, on="a"), "cte-joined")
+    add("join-agg-on-the-right", lambda l, r, F: r.join(l.groupBy("a").agg(F.count("b").alias("n")), on="a", how="left"), "cte-joined")
     add("union", lambda l, r, F: l.select("a").union(r.select("a")), "setop")
     add("union-self", lambda l, r, F: l.union(l), "setop")
     add("unionByName", lambda l, r, F: l.select("a", F.col("s").alias("t")).unionByName(r.select("t", "a")), "setop")
@@ -158,6 +168,17 @@ def ident_programs():
     def add(name, cols, fn, tag):
         P.append({"kind": "ident", "name": name, "cols": cols, "build": fn, "tag": tag, "mode": "bag", "lim": None,
                   "corpus": False})
+
+    # output column names that are not plain identifiers (blank, hyphen, leading digit, dot, mixed case): the NAMES the
+    # engine reports for the text must be collect()'s Row fields and df.columns, exactly
+    add("names-from-schema", ["Id", "Full Name", "score-2"], lambda d, F: d.where(F.col("Id") >= 0), "nonplain-name")
+    add("names-selected", ["Id", "Full Name", "score-2"],
+        lambda d, F: d.select("Id", F.col("`Full Name`"), F.col("`score-2`")), "nonplain-name")
+    add("names-from-alias", ["x1", "y_2"],
+        lambda d, F: d.select(F.col("x1").alias("2x"), F.col("y_2").alias("first.last"), (F.col("x1") + 1).alias("Mixed Case")),
+        "nonplain-name")
+    add("names-from-rename", ["x1", "y_2"],
+        lambda d, F: d.withColumnRenamed("x1", "first name").withColumn("a-b", F.col("y_2") * 2), "nonplain-name")
 
     add("cols-plain", ["x1", "y_2"], lambda d, F: d.where(F.col("x1") > 0).select("y_2", "x1"), "plain")
     add("col-select", ["select", "b"], lambda d, F: d.select("select", "b"), "reserved")
@@ -189,7 +210,7 @@ def build(prog, tname, session, F, steps=None, rows_override=None):
         r = session.createDataFrame(R_TABLES[tname], R_SCHEMA)
         return [l, prog["build"](l, r, F)]
     if prog["kind"] == "ident":
-        rows = IDENT_ROWS[tname]
+        rows = [tuple((list(r_) + [7, 8, 9])[:len(prog["cols"])]) for r_ in IDENT_ROWS[tname]]
         if rows:
             d = session.createDataFrame(rows, prog["cols"])
         else:
@@ -285,6 +306,13 @@ def collect_ref(df):
     return cols, [tuple(r) for r in got]
 
 
+def df_columns(df):
+    try:
+        return list(df.columns)
+    except Exception:   # noqa: BLE001
+        return None
+
+
 def run_cfg(df, conn, cfg, ref, mode, lim, pre):
     """-> (status, detail, text, (cols, rows)|None); status in ok | sql-raises | exec-fails | names-differ | rows-differ"""
     o, q, p = cfg
@@ -298,6 +326,9 @@ def run_cfg(df, conn, cfg, ref, mode, lim, pre):
         return "exec-fails", f"{type(ex).__name__}: {str(ex)[:200]}", text, None
     if cols != ref[0]:
         return "names-differ", f"{cols} vs collect() {ref[0]}", text, (cols, rows)
+    dc = df_columns(df)
+    if dc is not None and cols != dc:
+        return "names-differ", f"{cols} vs df.columns {dc}", text, (cols, rows)
     if not rows_agree(mode, lim, ref[1], rows, pre):
         return "rows-differ", f"{len(rows)} rows vs collect() {len(ref[1])}", text, (cols, rows)
     return "ok", "", text, (cols, rows)
@@ -998,11 +1029,16 @@ def run(ctx: core.Ctx):
                      "quote_identifiers=False prints an identifier that DuckDB does not read back bare "
                      "(reserved word / not a word); the text fails or means something else", base)
             else:
-                ctx.broken("T3:unquoted-text-fails-on-plain-identifiers",
-                           f"{p['desc']} cfg={cfg}: {status} {d['detail']}", data=base)
+                # every identifier is plain, so by unquoted_ok the engine reads the bare text like the quoted one -- unless
+                # the implementation prints the two renderings from different trees: a concrete failing input either way
+                n_dev["unquoted"] += 1
+                shape_ = p["name"] or ">".join(kinds(p["steps"]))
+                emit(f"C03/unquoted-text-{status}-on-plain-identifiers:{'optimized' if o else 'unoptimized'}:{p.get('tag') or shape_}",
+                     "with quote_identifiers=False the returned text fails / differs although every identifier is a plain one "
+                     "and the quoted rendering of the same statement is fine", base)
             continue
         if status == "names-differ" and p["kind"] == "ident" and p["tag"] == "nonword" \
-                and [c.lower() for c in d["ref"][0]] == [c.lower() for c in (d["got"] or [[]])[0]]:
+                and d["ref"][0] == [("ORDER BY" if c == "order by" else c) for c in (d["got"] or [[]])[0]]:
             n_dev["other"] += 1
             emit("C03/collect-uppercases-keyword-phrase-column-name",
                  "collect() names a column `ORDER BY` that the engine (and the text of df.sql()) call `order by`: "
